@@ -3,6 +3,7 @@
 /// # Limitations
 /// * Leading colons are ignored.
 /// * Angle brackets and `as` elements are ignored.
+/// * A raw identifier (`r#type`) reads as the name it stands for (`type`).
 ///
 /// # Example
 /// ```rust
@@ -11,9 +12,12 @@
 /// assert_eq!(path_to_string(&parse_quote!(a::b)), "a::b");
 /// ```
 pub fn path_to_string(path: &syn::Path) -> String {
+    use syn::ext::IdentExt;
+
     path.segments
         .iter()
-        .map(|s| s.ident.to_string())
+        // `r#type` is how the name `type` has to be written; it is the same name.
+        .map(|s| s.ident.unraw().to_string())
         .collect::<Vec<String>>()
         .join("::")
 }
